@@ -2,6 +2,10 @@
 
 from __future__ import annotations
 
+import copy
+import enum
+import pickle
+
 import numpy as np
 import scipp as sc
 
@@ -19,8 +23,17 @@ RULE = (
     'from the t0 the code itself computed (observed); plus convert() judged on what it returns: the tof '
     'coordinate as bin edges (N+1) or points, common 1-d / per-pixel 2-d / single spectrum, dense / binned '
     'events next to dense edges / tof-major data / Dataset, ascending and descending, with values below, '
-    'exactly at (+-1, 2 ulp) and above the observed t0; distinct = (kernel, energy unit, tof unit, length '
-    'units, dtype class, layout, energy decade) signatures'
+    'exactly at (+-1, 2 ulp) and above the observed t0; the same two-stage probe in every form the entry points '
+    'accept (each form a forced class of every run): the scatter flag in every true form (bool, numpy booleans '
+    'from comparisons / any() / all() / array elements, 1, np.int64(1), IntEnum) x convert / '
+    'deduce_conversion_graph / conversion_graph, positional / keyword / mixed calls, graph factories, the kernels '
+    'as nodes of a caller\'s transform_coords graph, names as np.str_ / (str, Enum) members, variances on the '
+    'arrival times (result variances against first-order propagation) and on the other operands, bin- / event- / '
+    'pixel-level masks, caller dimensions labelled like internal names (event, row, x, spectrum, coordinate names, '
+    'origin, target), a DataArray subclass, second use (after refused calls, after the caller modified graphs handed '
+    'out earlier, result fed back, display / copy / deepcopy / pickle in between), and one heavy shard '
+    '(2**20+7 events, 3 x 400001 points); distinct = (kernel, energy unit, tof unit, length units, dtype class, '
+    'layout, energy decade) signatures, (form, geometry, layout, dtype) for the forms'
 )
 ASSUMPTIONS = [
     'v(E) = sqrt(2E/m_n) with m_n from scipp.constants',
@@ -58,6 +71,34 @@ def definition(kind, t, L1, L2, E):
     return t0, other - E, other
 
 
+def _has_var(v):
+    return (v.bins.constituents['data'] if ops.is_binned(v) else v).variances is not None
+
+
+def _novar(v):
+    """The values of an operand as a variable without variances (broadcasting one with variances is refused)."""
+    return sc.values(v) if _has_var(v) else v
+
+
+def _aligned_variances(op, res):
+    return ops.align(sc.variances(op), _novar(res))
+
+
+def _res_variances(res):
+    return ops.result_values(sc.variances(res)) if _has_var(res) else None
+
+
+def _variance_broadcast(args):
+    """scipp's own rule: an operand with variances is never broadcast (to more dimensions or over the events of
+    a bin); an operation that would need that raises VariancesError whatever the package does."""
+    vs = [v for v in args.values() if isinstance(v, sc.Variable)]
+    dims = set()
+    for v in vs:
+        dims.update(v.dims)
+    binned = any(ops.is_binned(v) for v in vs)
+    return any(_has_var(v) and not ops.is_binned(v) and (binned or set(v.dims) != dims) for v in vs)
+
+
 class Monitors:
     def __init__(self, ctx):
         self.ctx = ctx
@@ -66,6 +107,7 @@ class Monitors:
         self.last_args = None
         self.boundary = None  # (t0 values aligned to tof) for the boundary call
         self.convert_kind = None  # geometry of the data the workload hands to convert()
+        self.expect_refusal = None  # name of a deliberately unacceptable call in flight (its refusal is counted)
 
     def t0(self, ev):
         if ev.exc is None:
@@ -79,21 +121,31 @@ class Monitors:
             self.last_args = ev.args
             case = {'kernel': name, **self.meta, 'args': {k: describe(v) for k, v in ev.args.items()}}
             if ev.exc is not None:
+                if isinstance(ev.exc, sc.VariancesError) and _variance_broadcast(ev.args):
+                    self.ctx.count('refused by scipp: an operand with variances would have to be broadcast')
+                    return
+                if self.expect_refusal is not None:
+                    self.ctx.count('refused (kernel): ' + self.expect_refusal)
+                    return
                 self.ctx.violation('raised', f'{name} raised {type(ev.exc).__name__}: {ev.exc}', case, kernel=kind)
                 return
             self.judge(name, kind, {n: ev.args[n] for n in ('tof', 'L1', 'L2', en_name)}, ev.result, case)
         return h
 
     def convert_result(self, ev):
-        """What the user sees: the energy_transfer coordinate(s) of the object convert() returned, judged
-        against the origin coordinate(s) and the supplied L1 / L2 / fixed energy of the object passed in
-        (dense coordinate - bin edges or points - and event coordinate, each on its own)."""
+        """What the user sees: the object convert() returned (see judge_object)."""
         a = ev.args
         kind = self.convert_kind
         if ev.exc is not None or kind is None or a.get('origin') != 'tof' or a.get('target') != 'energy_transfer':
             return  # an exception is reported by the caller (convert_raised)
+        self.judge_object(kind, a['data'], ev.result)
+
+    def judge_object(self, kind, data, out, target='energy_transfer', via='convert'):
+        """The target coordinate(s) of the object convert() (via='convert') or transform_coords with one of the
+        package's graphs / kernels as nodes (via='graph') returned, judged against the origin coordinate(s) and
+        the supplied L1 / L2 / fixed energy of the object passed in (dense coordinate - bin edges or points -
+        and event coordinate, each on its own)."""
         ctx = self.ctx
-        data, out = a['data'], ev.result
         en_name = 'incident_energy' if kind == 'direct' else 'final_energy'
         try:
             sup = {n: data.coords[n] for n in ('L1', 'L2', en_name)}
@@ -110,22 +162,25 @@ class Monitors:
             ctx.oracle_error('convert_result')
             return
         for cls, tof, got_coords in todo:
-            at = 'convert:' + cls
-            case = {'observed': 'result of convert', 'coordinate': cls, **self.meta,
+            at = f'{via}:{cls}'
+            case = {'observed': 'result of ' + ('convert' if via == 'convert' else 'transform_coords'),
+                    'coordinate': cls, **self.meta,
                     'args': {'tof': describe(tof), **{k: describe(v) for k, v in sup.items()}}}
-            if 'energy_transfer' not in got_coords:
-                ctx.violation('convert_no_target', f'convert returned without energy_transfer ({cls})', case, at=at)
+            if target not in got_coords:
+                ctx.violation('convert_no_target', f'{via} returned without {target} ({cls})', case, at=at)
                 continue
             try:
-                res = got_coords['energy_transfer']
+                res = got_coords[target]
+                # two dimensions are never exchanged: rename through unique intermediate names
                 ren = {o: d for o, d in back.items() if o in res.dims}
                 if ren:
-                    res = res.rename_dims(ren)
+                    tmp = {o: f'__rv_{i}' for i, o in enumerate(ren)}
+                    res = res.rename_dims(tmp).rename_dims({tmp[o]: d for o, d in ren.items()})
             except Exception:  # noqa: BLE001
                 ctx.oracle_error('convert_result')
                 continue
-            self.judge(f'convert(tof -> energy_transfer, {kind}) {cls}', kind, {'tof': tof, **sup}, res, case,
-                       at=at, event='convert_result:' + cls, pre='result:')
+            self.judge(f'{via}(tof -> energy_transfer, {kind}) {cls}', kind, {'tof': tof, **sup}, res, case,
+                       at=at, event=f'{via}_result:{cls}', pre='result:')
 
     def judge(self, name, kind, a, res, case, at='kernel', event=None, pre=''):
         """One observed (operands, result) pair against the definition; used for kernel returns (at='kernel')
@@ -134,11 +189,17 @@ class Monitors:
         en_name = 'incident_energy' if kind == 'direct' else 'final_energy'
         on_result = at != 'kernel'
         try:
-            tof, en = a['tof'], a[en_name]
+            tof, en = _novar(a['tof']), a[en_name]
             f32_cls = ops.elem_dtype(tof) == sc.DType.float32 and ops.elem_dtype(en) == sc.DType.float32
             # precision class of the result (documented: single iff tof AND energy are single)
             any32 = f32_cls
             eps = _eps(any32)
+            with_var = [n for n in ('tof', 'L1', 'L2', en_name) if _has_var(a[n])]
+            res_var = _res_variances(res)
+            var_t = (_aligned_variances(a['tof'], res).astype(si.LD) * si.factor(ops.elem_unit(a['tof'])) ** 2
+                     if with_var == ['tof'] and res_var is not None else None)
+            a = {n: _novar(a[n]) for n in ('tof', 'L1', 'L2', en_name)}
+            res = _novar(res)
             S = {n: ops.align(a[n], res).astype(si.LD) * si.factor(ops.elem_unit(a[n]))
                  for n in ('tof', 'L1', 'L2', en_name)}
             t0, dE, other = definition(kind, S['tof'], S['L1'], S['L2'], S[en_name])
@@ -216,6 +277,42 @@ class Monitors:
                               f'(64 eps + 1e-11) max(E) t/(t-t0)',
                               dict(case, got=repr(gotl[above][i]), expected=repr((dE[above] / fe)[i])),
                               **keys)
+        # variances: values are judged above whatever carries variances; the variances of the result are judged
+        # where first-order propagation is unambiguous in scipp's own arithmetic, i.e. when the arrival time is the
+        # only operand with variances: dE depends on it through the single power law (t - t0)^-2, so
+        # var(dE) = (2 E_free / (t - t0))^2 var(t).  Elements that must be NaN are not judged.
+        if with_var:
+            if res_var is None:
+                ctx.count(pre + 'variances: result without variances for operands with variances (values judged)')
+            elif var_t is None:
+                ctx.count(pre + 'variances: on ' + '+'.join(with_var) + ' (values judged only)')
+            elif any32:
+                # scipp propagates through scale / (t - t0)^2 with the intermediate (t - t0)^8 in the result
+                # precision: in single precision that leaves the float32 range for ordinary times (observed: inf)
+                ctx.count(pre + 'variances: single precision, intermediate powers leave the float32 range '
+                          '(values judged only)')
+            elif na:
+                try:
+                    with np.errstate(all='ignore'):
+                        exp = ((2 * other / (t - t0)) ** 2 * var_t / fe**2)
+                        rel = 8 * (64 * eps + FLOOR) * np.abs(cond)
+                        dec = above & (rel < 1e-2) & np.isfinite(exp.astype(np.float64)) & (exp > 0)
+                        fracv = np.abs(res_var.astype(si.LD) - exp)[dec] / (rel * exp)[dec]
+                except Exception:  # noqa: BLE001
+                    ctx.oracle_error(name + ' (variances)')
+                    return
+                ctx.count(pre + 'variances: elements judged against first-order propagation',
+                          int(np.count_nonzero(dec)))
+                if fracv.size:
+                    ctx.event('variance_propagation')
+                    worstv = float(np.max(fracv))
+                    ctx.dev(f'{pre}variance of the result: error as fraction of 8 (64 eps + 1e-11) t/(t-t0), relative',
+                            worstv)
+                    if not worstv <= 1:
+                        i = int(np.argmax(fracv))
+                        ctx.violation('variance', f'{name}: variance of the result off by {worstv:.3g} x the bound '
+                                      'from (2 E_free/(t-t0))^2 var(t)',
+                                      dict(case, got=repr(res_var[dec][i]), expected=repr(exp[dec][i])), **keys)
 
 
 # ------------------------------------------------------------ generator ---
@@ -379,6 +476,38 @@ def boundary_call(rng, ctx, K, mon, kind, kw):
         mon.boundary = None
 
 
+# ------------------------------------------------------- the scatter flag ---
+# `scatter: bool` is only ever tested for truth by the documented interface; user code computes the flag from data,
+# which gives numpy booleans, or passes 0 / 1.  Every true form selects the scattering conversions.
+class _Flag(enum.IntEnum):
+    OFF = 0
+    ON = 1
+
+
+SCATTER_TRUE = (
+    ('True', lambda: True),
+    ('np.bool_ from a comparison of numpy scalars', lambda: np.float64(3.5) > np.float64(0.0)),
+    ('np.bool_ from ndarray.any()', lambda: (np.array([0.0, 3.5]) > 0.0).any()),
+    ('np.bool_ from ndarray.all()', lambda: (np.array([1.0, 3.5]) > 0.0).all()),
+    ('element of a boolean array', lambda: np.array([False, True])[1]),
+    ('int 1', lambda: 1),
+    ('np.int64(1)', lambda: np.int64(1)),
+    ('IntEnum member equal to 1', lambda: _Flag.ON),
+)
+SCATTER_FALSE = (
+    ('False', lambda: False),
+    ('np.bool_ False from a comparison', lambda: np.float64(3.5) < np.float64(0.0)),
+    ('int 0', lambda: 0),
+    ('IntEnum member equal to 0', lambda: _Flag.OFF),
+)
+
+
+def scatter_true(ctx, k):
+    name, make = SCATTER_TRUE[k % len(SCATTER_TRUE)]
+    ctx.hit('scatter flag: ' + name)
+    return make()
+
+
 ALIGNMENT_STATES = ('aligned', 'fixed energy unaligned', 'all supplied unaligned', 'integer slice of a run dimension')
 
 
@@ -423,9 +552,9 @@ def insitu(rng, ctx, scn, kind, mon=None, i=0):
         da.coords['source_position'] = sc.vector([0.0, 0.0, -3.0], unit='m')
         da.coords['sample_position'] = sc.vector([0.0, 0.0, 0.0], unit='m')
         da.coords['position'] = sc.vectors(dims=['pixel'], values=rng.normal(size=(npx, 3)) + [0, 0, 2.0], unit='m')
-        first = scn.convert(da, 'tof', 'wavelength', scatter=True)
+        first = scn.convert(da, 'tof', 'wavelength', scatter=scatter_true(ctx, i // 2 + 3))
         mon.last_args = None
-        out = scn.convert(first, 'tof', 'energy_transfer', scatter=True)
+        out = scn.convert(first, 'tof', 'energy_transfer', scatter=scatter_true(ctx, i // 2))
         ctx.event('two_step_convert')
         la = mon.last_args
         if la is not None:
@@ -435,7 +564,7 @@ def insitu(rng, ctx, scn, kind, mon=None, i=0):
                                   f'with a {nm} different from the one supplied on the data', {'kind': kind, 'coord': nm},
                                   coord=nm)
     else:
-        out = scn.convert(da, 'tof', 'energy_transfer', scatter=True)
+        out = scn.convert(da, 'tof', 'energy_transfer', scatter=scatter_true(ctx, i // 2))
     has = 'energy_transfer' in (out.bins.coords if ops.is_binned(tof) else out.coords)
     if not has:
         ctx.violation('convert_no_target', 'convert returned without energy_transfer', {'kind': kind})
@@ -467,9 +596,9 @@ def result_class_name(c):
     return 'convert result: tof ' + ', '.join(c)
 
 
-def _convert(ctx, scn, mon, da):
+def _convert(ctx, scn, mon, da, flag=True):
     try:
-        scn.convert(da, 'tof', 'energy_transfer', scatter=True)
+        scn.convert(da, 'tof', 'energy_transfer', scatter=flag)
     except Exception as e:  # noqa: BLE001  no exception is allowed for finite-or-NaN inputs of a known geometry
         ctx.violation('convert_raised', f'convert raised {type(e).__name__}: {e}', dict(mon.meta),
                       family='convert result')
@@ -477,16 +606,25 @@ def _convert(ctx, scn, mon, da):
     return True
 
 
-def result_probe(rng, ctx, scn, mon, kind, j):
+def result_probe(rng, ctx, scn, mon, kind, j, form=None, K=None):
     """convert(..., 'tof', 'energy_transfer') judged on what it returns.
 
     Stage 1 converts the simulated arrival times as a per-pixel point coordinate; the t0 helper is observed.
     Stage 2 puts, into the coordinate layout of the class, per row: a negative time, zero, a time inside the
     fixed leg, {t0-2ulp .. t0+2ulp, 2 t0} of the observed t0, and the simulated arrival times, in ascending
     order (a histogram's edges; every third pass in descending order)."""
-    cls = RESULT_CLASSES[(j // 2) % len(RESULT_CLASSES)]
+    if form is None:
+        cls = RESULT_CLASSES[(j // 2) % len(RESULT_CLASSES)]
+        f32 = (j // (2 * len(RESULT_CLASSES))) % 3 == 2
+        descending = (j // (2 * len(RESULT_CLASSES))) % 3 == 1
+    else:
+        # the first layout class, counted from a rotating start, the form can be applied to
+        ok = form.get('needs', lambda c: True)
+        cls = next(c for c in (RESULT_CLASSES[(j + d) % len(RESULT_CLASSES)] for d in range(len(RESULT_CLASSES)))
+                   if ok(c))
+        f32 = bool(form.get('f32', False)) or (form.get('f32') is None and j % 5 == 4)
+        descending = j % 3 == 1
     coordkind, shape, container = cls
-    f32 = (j // (2 * len(RESULT_CLASSES))) % 3 == 2
     units = ('meV', 'us', 'm', 'm') if f32 else PROBE_UNITS[int(rng.integers(0, len(PROBE_UNITS)))]
     kw = None
     for _attempt in range(20):
@@ -501,7 +639,9 @@ def result_probe(rng, ctx, scn, mon, kind, j):
     npix, nt = tof.shape
     mon.convert_kind = kind
     mon.meta = {'family': 'convert result', 'class': list(cls), 'units': list(units), 'f32': f32,
-                'order': 'descending' if (j // (2 * len(RESULT_CLASSES))) % 3 == 1 else 'ascending'}
+                'order': 'descending' if descending else 'ascending'}
+    if form is not None:
+        mon.meta['form'] = form['name']
     # stage 1
     mon.last_t0 = None
     da1 = sc.DataArray(sc.ones(dims=tof.dims, shape=tof.shape, unit='counts'),
@@ -526,7 +666,6 @@ def result_probe(rng, ctx, scn, mon, kind, j):
         rows = np.concatenate([np.stack(cols, axis=-1).astype(np.float64), tv.astype(np.float64)], axis=1)
         rows = np.rint(rows).astype(npt) if npt is np.int64 else rows.astype(npt)
     rows = np.sort(rows, axis=1)
-    descending = (j // (2 * len(RESULT_CLASSES))) % 3 == 1
     if descending:  # scipp accepts edges in either monotonic order
         rows = rows[:, ::-1].copy()
         ctx.hit('convert result: coordinate in descending order')
@@ -567,47 +706,509 @@ def result_probe(rng, ctx, scn, mon, kind, j):
         da = da.transpose(['tof', 'pixel']).copy()
     elif container == 'dataset':
         da = sc.Dataset({'sample': da, 'vanadium': da * sc.scalar(2.0)})
+    dimmap = {}
+    if form is not None and 'decorate' in form:
+        da, dimmap = form['decorate'](rng, ctx, da, kind)
     try:
         if exact:
-            mon.boundary = t0['pixel', 0].copy() if (single and 'pixel' in t0.dims) else t0
-        if not _convert(ctx, scn, mon, da):
+            b = t0['pixel', 0].copy() if (single and 'pixel' in t0.dims) else t0
+            mon.boundary = b.rename_dims({k: v for k, v in dimmap.items() if k in b.dims})
+        if form is None:
+            if not _convert(ctx, scn, mon, da, scatter_true(ctx, j // 2)):
+                return None
+        elif not call_form(form, rng, ctx, scn, K, mon, kind, da, j):
             return None
     finally:
         mon.boundary = None
-    ctx.hit(result_class_name(cls))
-    if exact:
-        ctx.hit('convert result: coordinate value exactly at the observed t0')
+    if form is None:
+        ctx.hit(result_class_name(cls))
+        if exact:
+            ctx.hit('convert result: coordinate value exactly at the observed t0')
+        else:
+            ctx.count('result probe: tof not in the dtype of t0 (no exact boundary; 8-ulp band only)')
     else:
-        ctx.count('result probe: tof not in the dtype of t0 (no exact boundary; 8-ulp band only)')
+        ctx.hit(form_class_name(form))
+        ctx.count('forms: ' + ('with' if exact else 'without') + ' a coordinate value exactly at the observed t0')
     dec = sig[-1]
+    if form is not None:
+        return ('entry-point form', form['name'], kind, *cls, str(tof.dtype))
     return ('convert result', kind, *cls, *units, str(tof.dtype), dec)
 
+
+# ------------------------------------------------ forms of the entry points ---
+# The property quantifies over inputs and configurations of the documented entry points: convert(),
+# deduce_conversion_graph() / conversion_graph() with transform_coords, the graph factories, and the two kernels
+# (also as nodes of a caller's graph).  A form is one way scipp / Python lets a caller hand the same neutrons to
+# them; every form goes through the two-stage probe above (negative time, zero, a time inside the fixed leg, the
+# boundary sextuple of the observed t0, simulated arrivals) and is judged against the forward simulation.
+class _Name(str, enum.Enum):
+    tof = 'tof'
+    energy_transfer = 'energy_transfer'
+    direct_inelastic = 'direct_inelastic'
+    indirect_inelastic = 'indirect_inelastic'
+
+
+NAME_FORMS = {'str': str, 'np.str_': np.str_, '(str, Enum) member': lambda x: _Name[x]}
+
+
+class _DataArraySubclass(sc.DataArray):
+    """A caller's subclass of the documented argument class (adds nothing but bookkeeping)."""
+    calls = 0
+
+    def transform_coords(self, *args, **kwargs):
+        type(self).calls += 1
+        return super().transform_coords(*args, **kwargs)
+
+
+def _is_binned_da(da):
+    return isinstance(da, sc.DataArray) and da.bins is not None
+
+
+def _items(da, f):
+    """Apply f to a data array or to every item of a dataset."""
+    if isinstance(da, sc.Dataset):
+        return sc.Dataset({k: f(da[k].copy()) for k in da.keys()})
+    return f(da)
+
+
+def _rename(obj, dimmap):
+    dimmap = {k: v for k, v in dimmap.items() if k in obj.dims and k != v}
+    if not dimmap:
+        return obj, {}
+    tmp = {k: f'__rv_tmp_{i}' for i, k in enumerate(dimmap)}
+    return obj.rename_dims(tmp).rename_dims({tmp[k]: v for k, v in dimmap.items()}), dimmap
+
+
+def _rebuild_events(da, f):
+    """The same binned data array with f applied to the table of events."""
+    c = da.bins.constituents
+    buf, dim = f(c['data'], c['dim'])
+    return sc.DataArray(sc.bins(begin=c['begin'], end=c['end'], dim=dim, data=buf),
+                        coords={k: da.coords[k] for k in da.coords}, masks={k: da.masks[k] for k in da.masks})
+
+
+def _rel_variances(v, rel=1e-3):
+    x = np.asarray(v.values, dtype=np.float64)
+    out = v.copy()
+    out.variances = ((rel * x) ** 2 + 1e-6).astype(np.asarray(v.values).dtype)
+    return out
+
+
+def deco_tof_variances(rng, ctx, da, kind):
+    def one(d):
+        if 'tof' in d.coords and d.coords['tof'].dtype in (sc.DType.float64, sc.DType.float32):
+            d.coords['tof'] = _rel_variances(d.coords['tof'])
+        if _is_binned_da(d):
+            def f(buf, dim):
+                buf = buf.copy()
+                if buf.coords['tof'].dtype in (sc.DType.float64, sc.DType.float32):
+                    buf.coords['tof'] = _rel_variances(buf.coords['tof'])
+                return buf, dim
+            d = _rebuild_events(d, f)
+        return d
+    return _items(da, one), {}
+
+
+def deco_data_variances(rng, ctx, da, kind):
+    def one(d):
+        if _is_binned_da(d):
+            def f(buf, dim):
+                buf = buf.copy()
+                buf.variances = np.asarray(buf.values).copy()
+                return buf, dim
+            return _rebuild_events(d, f)
+        d = d.copy()
+        d.variances = np.asarray(d.values).copy()
+        return d
+    return _items(da, one), {}
+
+
+def deco_masks(which):
+    def deco(rng, ctx, da, kind):
+        def flags(shape, p):
+            m = rng.random(shape) < p
+            m.reshape(-1)[rng.integers(0, m.size)] = True
+            return m
+
+        def one(d):
+            d = d.copy()
+            if 'pixel' in which and 'pixel' in d.dims:
+                d.masks['dead pixels'] = sc.array(dims=['pixel'], values=flags((d.sizes['pixel'],), 0.5))
+            if 'bin' in which:
+                d.masks['bad bins'] = sc.array(dims=list(d.dims), values=flags(tuple(d.shape), 0.4))
+            if 'tof' in which:
+                d.masks['tof range'] = sc.array(dims=['tof'], values=flags((d.sizes['tof'],), 0.4))
+            if 'event' in which and _is_binned_da(d):
+                def f(buf, dim):
+                    buf = buf.copy()
+                    n = buf.sizes[dim]
+                    if n:
+                        buf.masks['bad events'] = sc.array(dims=[dim], values=flags((n,), 0.4))
+                    return buf, dim
+                d = _rebuild_events(d, f)
+            return d
+        return _items(da, one), {}
+    return deco
+
+
+def deco_dims(pixel, tof, event=None):
+    """Caller's dimension labels: the labels this package and scipp's coordinate transformation use themselves
+    ('event', 'row', 'x', 'spectrum', ...), the names of the coordinates involved, the origin and the target."""
+    def deco(rng, ctx, da, kind):
+        en = 'incident_energy' if kind == 'direct' else 'final_energy'
+        px = en if pixel == '<fixed energy>' else pixel
+        if event is not None and _is_binned_da(da):
+            da = _rebuild_events(da, lambda buf, dim: (buf.rename_dims({dim: event}), event))
+        return _rename(da, {'pixel': px, 'tof': tof})
+    return deco
+
+
+def deco_subclass(rng, ctx, da, kind):
+    sub = _DataArraySubclass(da.data, coords={k: da.coords[k] for k in da.coords},
+                             masks={k: da.masks[k] for k in da.masks})
+    for k in da.coords:
+        sub.coords.set_aligned(k, da.coords[k].aligned)
+    return sub, {}
+
+
+def _poison(*, tof):
+    return tof * 0.0
+
+
+def _energy_names(kind):
+    return ('incident_energy', 'final_energy') if kind == 'direct' else ('final_energy', 'incident_energy')
+
+
+def call_form(form, rng, ctx, scn, K, mon, kind, da, j):
+    """Stage 2 of the probe in the calling form; returns False when the call raised (reported)."""
+    from scippneutron.conversion import graph as G
+
+    how = form.get('call', 'convert mixed')
+    nm = NAME_FORMS[form.get('names', 'str')]
+    tof_, et_ = nm('tof'), nm('energy_transfer')
+    mode = nm(kind + '_inelastic')
+    flag = scatter_true(ctx, form['flag'] if 'flag' in form else j)
+    mon.meta = dict(mon.meta, scatter=f'{type(flag).__module__}.{type(flag).__name__}', call=how)
+    kernel = getattr(K, f'energy_transfer_{kind}_from_tof')
+    en, other_en = _energy_names(kind)
+    out, target, via = None, 'energy_transfer', 'convert'
+    try:
+        pre = form.get('before')
+        if pre == 'refused: both energies':
+            bad = da.copy()
+            bad.coords[other_en] = sc.scalar(3.0, unit='meV')
+            mon.convert_kind, mon.expect_refusal = None, pre
+            try:
+                scn.convert(bad, 'tof', 'energy_transfer', scatter=flag)
+                ctx.count('before: call with both energies was accepted')
+            except Exception as e:  # noqa: BLE001  any refusal of an input outside the property
+                ctx.count(f'before: call with both energies refused ({type(e).__name__})')
+            finally:
+                mon.convert_kind, mon.expect_refusal = kind, None
+        elif pre == 'refused: arrival time given as a length':
+            bad = da.copy()
+            bad.coords['tof'] = sc.array(dims=list(da.coords['tof'].dims),
+                                         values=np.asarray(da.coords['tof'].values, dtype=np.float64), unit='m')
+            mon.convert_kind, mon.expect_refusal = None, pre
+            try:
+                scn.convert(bad, 'tof', 'energy_transfer', scatter=flag)
+                ctx.count('before: call with tof in metres was accepted')
+            except Exception as e:  # noqa: BLE001
+                ctx.count(f'before: call with tof in metres refused ({type(e).__name__})')
+            finally:
+                mon.convert_kind, mon.expect_refusal = kind, None
+        elif pre == 'graphs handed out earlier were modified by the caller':
+            for g in (scn.conversion_graph('tof', 'energy_transfer', True, 'direct_inelastic'),
+                      scn.conversion_graph('tof', 'energy_transfer', True, 'indirect_inelastic'),
+                      scn.deduce_conversion_graph(da, 'tof', 'energy_transfer', True),
+                      G.tof.direct_inelastic('tof'), G.tof.indirect_inelastic('tof')):
+                g['energy_transfer'] = _poison
+                g.pop('L1', None)
+        elif pre == 'display of data, graph and result between two calls':
+            g = scn.conversion_graph('tof', 'energy_transfer', True, str(mode))
+            first = scn.convert(da, 'tof', 'energy_transfer', scatter=flag)
+            for o in (da, first, g, kernel):
+                repr(o)
+                str(o)
+            for o in (da, first):
+                o._repr_html_()
+            if g != dict(g) or copy.copy(g) != g:
+                ctx.count('graph does not compare equal to its copy')
+        elif pre == 'same input converted before':
+            scn.convert(da, 'tof', 'energy_transfer', scatter=flag)
+        elif pre == 'result of an earlier conversion fed back':
+            first = scn.convert(da, 'tof', 'energy_transfer', scatter=flag)
+            back = {o: d for o, d in zip(first.dims, da.dims, strict=True) if o != d}
+            da = first.drop_coords('energy_transfer').rename_dims(back)
+
+        if how == 'convert mixed':
+            out = scn.convert(da, tof_, et_, scatter=flag)
+        elif how == 'convert positional':
+            out = scn.convert(da, tof_, et_, flag)
+        elif how == 'convert keywords':
+            out = scn.convert(scatter=flag, target=et_, origin=tof_, data=da)
+        else:
+            via = 'graph'
+            if how == 'deduce_conversion_graph positional':
+                g = scn.deduce_conversion_graph(da, tof_, et_, flag)
+            elif how == 'deduce_conversion_graph keywords':
+                g = scn.deduce_conversion_graph(scatter=flag, target=et_, origin=tof_, data=da)
+            elif how == 'conversion_graph positional':
+                g = scn.conversion_graph(tof_, et_, flag, mode)
+            elif how == 'conversion_graph keywords':
+                g = scn.conversion_graph(energy_mode=mode, scatter=flag, target=et_, origin=tof_)
+            elif how == 'graph factories':
+                fac = G.tof.direct_inelastic if kind == 'direct' else G.tof.indirect_inelastic
+                g = {**G.beamline.beamline(scatter=flag), **(fac(tof_) if j % 2 else fac(start=tof_))}
+            elif how == 'kernel as the node of a graph':
+                g = {'energy_transfer': kernel}
+            elif how == 'kernel as a node under another name':
+                target = 'dE'
+                g = {'dE': kernel}
+            elif how == 'graph deep-copied':
+                g = copy.deepcopy(scn.conversion_graph('tof', 'energy_transfer', flag, str(mode)))
+            elif how == 'graph pickled':
+                g = pickle.loads(pickle.dumps(scn.conversion_graph('tof', 'energy_transfer', flag, str(mode))))
+            else:
+                raise AssertionError(how)
+            out = da.transform_coords(target if target != 'energy_transfer' else et_, graph=g)
+    except Exception as e:  # noqa: BLE001  no exception is allowed: same neutrons, same geometry, another form
+        ctx.violation('convert_raised', f'{form["name"]}: {type(e).__name__}: {e}', dict(mon.meta),
+                      family='entry-point form', axis=form['axis'])
+        return False
+    finally:
+        mon.expect_refusal = None
+        mon.convert_kind = kind
+    ctx.hit('entry point: ' + how)
+    if via == 'graph':
+        mon.judge_object(kind, da, out, target=target, via='graph')
+    if isinstance(da, _DataArraySubclass):
+        ctx.count('subclass: transform_coords of the subclass was called', _DataArraySubclass.calls)
+        _DataArraySubclass.calls = 0
+    return True
+
+
+def _dense(c):
+    return c[2] == 'dense'
+
+
+def _binned(c):
+    return c[2] == 'binned events'
+
+
+def _data_array(c):
+    return c[2] != 'dataset'
+
+
+def _no_broadcast_of_tof(c):
+    # a coordinate with variances must already have the shape of the result (scipp refuses to broadcast it)
+    return c[1] in ('per-pixel 2-d', 'single spectrum') and c[2] != 'tof-major data'
+
+
+def _forms():
+    out = []
+
+    def add(axis, name, **kw):
+        out.append({'axis': axis, 'name': name, **kw})
+
+    # (K) every true form of the flag x every entry point that takes it
+    for k, (fname, _) in enumerate(SCATTER_TRUE):
+        for how in ('convert positional', 'convert keywords', 'deduce_conversion_graph positional',
+                    'conversion_graph positional'):
+            add('scatter flag', f'scatter = {fname}; {how}', flag=k, call=how)
+    # (d) calling conventions and graph use
+    for how in ('convert mixed', 'deduce_conversion_graph keywords', 'conversion_graph keywords', 'graph factories',
+                'kernel as the node of a graph', 'kernel as a node under another name'):
+        add('calling convention', how, call=how)
+    # (e) names given as numpy strings / members of a (str, Enum)
+    for names in ('np.str_', '(str, Enum) member'):
+        for how in ('convert positional', 'convert keywords', 'conversion_graph positional', 'graph factories'):
+            add('name types', f'names as {names}; {how}', names=names, call=how)
+    # (a) variances
+    add('variances', 'variances on the arrival times (dense coordinate and events)', decorate=deco_tof_variances,
+        needs=_no_broadcast_of_tof, f32=None)
+    add('variances', 'variances on the arrival times; kernel as the node of a graph', decorate=deco_tof_variances,
+        needs=_no_broadcast_of_tof, call='kernel as the node of a graph', f32=None)
+    add('variances', 'variances on the data values', decorate=deco_data_variances, needs=_data_array)
+    # (b) masks
+    add('masks', 'per-pixel mask', decorate=deco_masks(('pixel',)), needs=lambda c: c[1] != 'single spectrum')
+    add('masks', 'bin-level mask', decorate=deco_masks(('bin', 'tof')))
+    add('masks', 'event-level mask', decorate=deco_masks(('event',)), needs=_binned)
+    add('masks', 'masks of every kind', decorate=deco_masks(('pixel', 'bin', 'tof', 'event')))
+    # (c) dimension labels
+    for px, tf in (('event', 'tof'), ('row', 'tof'), ('x', 'time'), ('spectrum', 'tof'), ('L2', 'tof'),
+                   ('<fixed energy>', 'tof'), ('energy_transfer', 'tof'), ('position', 'x'), ('tof', 'time'),
+                   ('pixel', 'energy_transfer'), ('L1', 'event'), ('detector_number', 'Ltotal')):
+        add('dimension labels', f'dims ({px}, {tf})', decorate=deco_dims(px, tf))
+    for ev in ('tof', 'pixel', 'x', 'row', 'energy_transfer'):
+        add('dimension labels', f'table of events along "{ev}"', decorate=deco_dims('pixel', 'tof', ev), needs=_binned)
+    add('dimension labels', 'dims (event, x), table of events along "tof"', decorate=deco_dims('event', 'x', 'tof'),
+        needs=_binned)
+    # (i) subclass of the documented argument class
+    add('subclass', 'subclass of DataArray', decorate=deco_subclass, needs=_data_array)
+    add('subclass', 'subclass of DataArray; deduce_conversion_graph', decorate=deco_subclass, needs=_data_array,
+        call='deduce_conversion_graph positional')
+    # (g) second use, (j) display / copies between calls
+    for before in ('refused: both energies', 'refused: arrival time given as a length',
+                   'graphs handed out earlier were modified by the caller', 'same input converted before',
+                   'display of data, graph and result between two calls'):
+        add('second use', before, before=before)
+    add('second use', 'result of an earlier conversion fed back', before='result of an earlier conversion fed back',
+        needs=lambda c: _dense(c))
+    add('second use', 'graphs handed out earlier were modified by the caller; conversion_graph',
+        before='graphs handed out earlier were modified by the caller', call='conversion_graph positional')
+    add('second use', 'graph deep-copied', call='graph deep-copied')
+    add('second use', 'graph pickled', call='graph pickled')
+    return tuple(out)
+
+
+FORMS = _forms()
+
+
+def form_class_name(form):
+    return f'form [{form["axis"]}]: {form["name"]}'
+
+
+def false_flag_calls(ctx, scn, da, kind):
+    """scatter false in every form: the non-scattering graphs have no rule for the energy transfer.  The property
+    says nothing about this configuration; what the package does is tallied, never judged."""
+    for name, make in SCATTER_FALSE:
+        flag = make()
+        try:
+            scn.convert(da, 'tof', 'energy_transfer', scatter=flag)
+            ctx.count('scatter false: convert returned')
+        except Exception as e:  # noqa: BLE001
+            ctx.count(f'scatter false: convert refused ({type(e).__name__})')
+        try:
+            g = scn.conversion_graph('tof', 'energy_transfer', flag, kind + '_inelastic')
+            ctx.count('scatter false: graph ' + ('with' if 'energy_transfer' in g else 'without')
+                      + ' a rule for energy_transfer')
+        except Exception as e:  # noqa: BLE001
+            ctx.count(f'scatter false: conversion_graph refused ({type(e).__name__})')
+        ctx.hit('scatter flag false: ' + name)
+
+
+VARIANCE_OPERANDS = ('tof', 'L1', 'L2', 'energy', 'all')
+
+
+def variance_kernel_cases(rng, ctx, K, mon, kind):
+    """Kernel calls with variances on one operand at a time and on all of them, in the two layouts where scipp
+    needs no broadcast of the carrier (all scalars; one arrival per pixel).  Values are judged for all of them;
+    the variances only where the arrival time is the only carrier.  Where scipp has to broadcast a carrier it
+    refuses (VariancesError): counted."""
+    en = 'incident_energy' if kind == 'direct' else 'final_energy'
+    for layout in ('scalar', 'one arrival per pixel'):
+        for which in VARIANCE_OPERANDS:
+            kw, sig = gen(rng, ctx, kind, 'scalar' if layout == 'scalar' else '2d', False, ('meV', 'us', 'm', 'm'))
+            if layout != 'scalar':
+                kw['tof'] = kw['tof']['tof', 0].copy()
+            if kw['tof'].dtype not in (sc.DType.float64, sc.DType.float32):
+                kw['tof'] = kw['tof'].to(dtype='float64')
+            for n in ('tof', 'L1', 'L2', en):
+                if which in ('all', 'energy' if n == en else n):
+                    kw[n] = _rel_variances(kw[n])
+            mon.meta = {'family': 'variances', 'layout': layout, 'carrier': which}
+            mon.last_t0 = None
+            try:
+                getattr(K, f'energy_transfer_{kind}_from_tof')(**kw)
+            except Exception:  # noqa: BLE001  judged by the kernel monitor (refusal of a broadcast is counted there)
+                pass
+            ctx.hit(f'variances on {which} ({layout})')
+            ctx.case(('variances', kind, layout, which))
+
+
+HEAVY = (('direct', 'events', False), ('indirect', 'events', True), ('direct', 'dense', True),
+         ('indirect', 'dense', False))
+HEAVY_EVENTS = 2**20 + 7
+HEAVY_DENSE = (3, 400001)
+
+
+def heavy_case(rng, ctx, scn, mon, kind, layout, f32):
+    """One conversion of 2**20 + 7 events / 3 x 400001 points (sizes beyond any block, chunk or thread grain)."""
+    r = np.float32 if f32 else np.float64
+    meV, us = si.LD(si.lookup(sc.Unit('meV'))[0]), si.LD('1e-6')
+    npix = 5 if layout == 'events' else HEAVY_DENSE[0]
+    sizes = (rng.multinomial(HEAVY_EVENTS, np.full(npix, 1 / npix)) if layout == 'events'
+             else np.full(npix, HEAVY_DENSE[1]))
+    n = int(sizes.sum())
+    pix = np.repeat(np.arange(npix), sizes)
+    L1 = np.full(npix, 10.0 ** rng.uniform(0, 2)).astype(r)
+    L2 = (10.0 ** rng.uniform(-0.5, 1.5, size=npix)).astype(r)
+    Efix = (10.0 ** rng.uniform(-1, 3, size=1 if kind == 'direct' else npix)).astype(r)
+    Efix_p = np.broadcast_to(Efix, (npix,))
+    Efree = 10.0 ** rng.uniform(-3, 4, size=n)
+    Lfix, Lfree = (L1, L2) if kind == 'direct' else (L2, L1)
+    t0 = Lfix.astype(si.LD) / v_of(Efix_p.astype(si.LD) * meV)
+    t = t0[pix] + Lfree.astype(si.LD)[pix] / v_of(Efree.astype(si.LD) * meV)
+    sel = rng.random(n)
+    t = np.where(sel < 0.1, t0[pix] * rng.uniform(0.05, 0.999, size=n), t)
+    t_u = (t / us).astype(r)
+    dt = 'float32' if f32 else 'float64'
+    en = 'incident_energy' if kind == 'direct' else 'final_energy'
+    coords = {'L1': sc.scalar(L1[0].item(), unit='m', dtype=dt),
+              'L2': sc.array(dims=['pixel'], values=L2, unit='m', dtype=dt),
+              en: (sc.scalar(Efix[0].item(), unit='meV', dtype=dt) if kind == 'direct'
+                   else sc.array(dims=['pixel'], values=Efix, unit='meV', dtype=dt))}
+    if layout == 'events':
+        ev = sc.DataArray(sc.ones(dims=['event'], shape=[n], unit='counts', dtype='float32'),
+                          coords={'tof': sc.array(dims=['event'], values=t_u, unit='us', dtype=dt)})
+        end = np.cumsum(sizes)
+        da = sc.DataArray(sc.bins(begin=sc.array(dims=['pixel'], values=end - sizes, unit=None, dtype='int64'),
+                                  end=sc.array(dims=['pixel'], values=end, unit=None, dtype='int64'),
+                                  dim='event', data=ev), coords=coords)
+    else:
+        da = sc.DataArray(sc.ones(dims=['pixel', 'tof'], shape=list(HEAVY_DENSE), unit='counts', dtype='float32'),
+                          coords={**coords, 'tof': sc.array(dims=['pixel', 'tof'], values=t_u.reshape(HEAVY_DENSE),
+                                                            unit='us', dtype=dt)})
+    mon.convert_kind = kind
+    mon.meta = {'family': 'heavy', 'layout': layout, 'elements': n, 'f32': f32}
+    if _convert(ctx, scn, mon, da, scatter_true(ctx, n)):
+        ctx.count('heavy: elements converted in one call', n)
+    ctx.hit(f'heavy: {HEAVY_EVENTS} events' if layout == 'events' else f'heavy: {HEAVY_DENSE[0]} x {HEAVY_DENSE[1]} points')
+    ctx.case(('heavy', kind, layout, dt))
 
 
 LAYOUTS = ['scalar', '2d', 'binned', 'common_tof']
 
 
+N_REGULAR = 13  # + the heavy shard + the runner's two environment variants of shard 0 = one wave on 16 cores
+
+
 def plan(tier, seed):
-    n = 16
-    return [{'cases': 1000 if tier == 'quick' else 20000, 'insitu': 60 if tier == 'quick' else 1500,
-             'result_probes': 66 if tier == 'quick' else 1320}
-            for _ in range(n)]
+    quick = tier == 'quick'
+    regular = [{'cases': 1230 if quick else 24600, 'insitu': 74 if quick else 1850,
+                'result_probes': 88 if quick else 1628, 'form_rounds': 1 if quick else 12}
+               for _ in range(N_REGULAR)]
+    return [*regular, {'cases': 0, 'insitu': 0, 'result_probes': 0, 'form_rounds': 0, 'heavy': True}]
 
 
 def requirements(tier):
     return {'events': {'energy_transfer_direct_from_tof': 100, 'energy_transfer_indirect_from_tof': 100,
                        'convert_result:dense-edges': 200, 'convert_result:dense-points': 200,
-                       'convert_result:events': 100},
+                       'convert_result:events': 100,
+                       'graph_result:dense-edges': 50, 'graph_result:dense-points': 50, 'graph_result:events': 20,
+                       'variance_propagation': 20},
             'forced': ['tof below t0', 'boundary sextuple', 'per-pixel L1',
                        'float32 with extreme units inside the domain', 'dead pixel (NaN fixed-leg input)']
             + ['convert input: ' + a for a in ALIGNMENT_STATES]
             + [result_class_name(c) for c in RESULT_CLASSES]
             + ['convert result: coordinate value exactly at the observed t0',
-               'convert result: coordinate in descending order'],
+               'convert result: coordinate in descending order']
+            + ['scatter flag: ' + n for n, _ in SCATTER_TRUE] + ['scatter flag false: ' + n for n, _ in SCATTER_FALSE]
+            + [form_class_name(f) for f in FORMS]
+            + sorted({'entry point: ' + f.get('call', 'convert mixed') for f in FORMS})
+            + [f'variances on {w} ({lay})' for lay in ('scalar', 'one arrival per pixel') for w in VARIANCE_OPERANDS]
+            + [f'heavy: {HEAVY_EVENTS} events', f'heavy: {HEAVY_DENSE[0]} x {HEAVY_DENSE[1]} points'],
             'counters': {'boundary_points': 500, 'decided:below t0': 200, 'decided:above t0': 2000,
                          'convert_calls': 10, 'result:boundary_points': 2000,
                          'result:points exactly at the observed t0': 200,
-                         'result:decided:below t0': 1000, 'result:decided:above t0': 2000},
+                         'result:decided:below t0': 1000, 'result:decided:above t0': 2000,
+                         'form_probes': 6 * len(FORMS),
+                         'forms: with a coordinate value exactly at the observed t0': 4 * len(FORMS),
+                         'variances: elements judged against first-order propagation': 100,
+                         'result:variances: elements judged against first-order propagation': 200,
+                         'refused by scipp: an operand with variances would have to be broadcast': 2,
+                         'heavy: elements converted in one call': 2 * HEAVY_EVENTS + 2 * HEAVY_DENSE[0] * HEAVY_DENSE[1]},
             }
 
 
@@ -623,6 +1224,13 @@ def run(shard, ctx):
     tr.watch(K.energy_transfer_indirect_from_tof, 'indirect', on_return=mon.kernel('indirect'))
     tr.watch(scn.convert, 'convert', on_return=mon.convert_result)
     with tr:
+        if shard.get('heavy'):
+            for k, (kind, layout, f32) in enumerate(HEAVY):
+                hrng = np.random.Generator(np.random.PCG64([shard['seed'], shard['index'], 5, 100 + k]))
+                try:
+                    heavy_case(hrng, ctx, scn, mon, kind, layout, f32)
+                except Exception:  # noqa: BLE001  the harness itself (convert's exceptions are judged in _convert)
+                    ctx.oracle_error('heavy_case')
         for i in range(shard['cases']):
             kind = 'direct' if i % 2 == 0 else 'indirect'
             layout = LAYOUTS[rng.integers(0, len(LAYOUTS))]
@@ -675,6 +1283,48 @@ def run(shard, ctx):
                 ctx.oracle_error('result_probe')
             finally:
                 mon.boundary = None
+        # every form of the entry points, both geometries, once per round; layout class, precision and order
+        # rotate with the shard so that the 13 shards of a run cross each form with all layouts
+        for rnd in range(shard.get('form_rounds', 0)):
+            frng = np.random.Generator(np.random.PCG64([shard['seed'], shard['index'], 5, 7, rnd]))
+            for f, form in enumerate(FORMS):
+                for g in range(1):  # one geometry per form and shard; it alternates with the shard index
+                    j = 3 * f + 7 * shard['index'] + 11 * rnd + g
+                    kind = 'direct' if (f + shard['index'] + rnd + g) % 2 == 0 else 'indirect'
+                    try:
+                        sig = result_probe(frng, ctx, scn, mon, kind, j, form=form, K=K)
+                        if sig is not None:
+                            ctx.case(sig)
+                            ctx.count('form_probes')
+                    except Exception:  # noqa: BLE001  the harness itself (exceptions of the package: call_form)
+                        ctx.oracle_error('form_probe: ' + form['name'])
+                    finally:
+                        mon.boundary = None
+                        mon.expect_refusal = None
+            for kind in ('direct', 'indirect'):
+                try:
+                    variance_kernel_cases(frng, ctx, K, mon, kind)
+                    kw, _ = gen(frng, ctx, kind, '2d', False, ('meV', 'us', 'm', 'm'))
+                    en = 'incident_energy' if kind == 'direct' else 'final_energy'
+                    da = sc.DataArray(sc.ones(dims=kw['tof'].dims, shape=kw['tof'].shape, unit='counts'),
+                                      coords={'tof': kw['tof'], 'L1': kw['L1'], 'L2': kw['L2'], en: kw[en]})
+                    mon.convert_kind = None
+                    mon.meta = {'family': 'scatter false'}
+                    false_flag_calls(ctx, scn, da, kind)
+                    # a carrier of variances that scipp would have to broadcast: refused by scipp itself
+                    mon.convert_kind = kind
+                    mon.meta = {'family': 'variances', 'carrier': 'fixed energy, broadcast'}
+                    da.coords[en] = _rel_variances(da.coords[en].to(dtype='float64'))
+                    try:
+                        scn.convert(da, 'tof', 'energy_transfer', scatter=True)
+                        ctx.count('variances on a broadcast operand: accepted (values judged)')
+                    except sc.VariancesError:
+                        ctx.count('variances on a broadcast operand: refused by scipp (VariancesError)')
+                    except Exception as e:  # noqa: BLE001
+                        ctx.violation('convert_raised', f'convert raised {type(e).__name__}: {e}', dict(mon.meta),
+                                      family='variances')
+                except Exception:  # noqa: BLE001
+                    ctx.oracle_error('variance / false-flag cases')
 
 
 TECHNIQUE = ('runtime monitors (sys.monitoring) on both inelastic kernels, the t0 helper and the object convert() '
@@ -685,6 +1335,9 @@ LEVEL_TEXT = ('exploration: neutrons are simulated forward (Ei, Ef, L1, L2 -> ar
               'the conditioning bound 64 eps max(E) t/(t-t0); NaN/finite is decided on both sides of t0 (8-ulp '
               'undecided band) and exactly at, 1 and 2 ulp around the t0 the code itself computed; no infinity '
               'anywhere. The same judgement is applied to the energy_transfer coordinates (dense bin edges / points '
-              'and event coordinate) of every object convert() returned. Sampled inputs, not a proof.')
+              'and event coordinate) of every object convert() returned and of every object transform_coords returned '
+              'for a graph of the package or a kernel used as a node, in every calling form listed in the rule; result '
+              'variances are compared with (2 E_free/(t-t0))^2 var(t) when the arrival time is the only carrier '
+              '(double precision). Sampled inputs, not a proof.')
 LEVEL_NOTE = 'trusted: numpy long double, independent SI table, scipp containers, m_n from scipp.constants'
 DESIGN_REF = 'DESIGN.md section 4, C05'
